@@ -586,7 +586,7 @@ func (e *Engine) run(fn *ssa.Function, entry *State, args []AbsVal) []exitState 
 			slots[b] = map[string]int{}
 		}
 		unrolled := false
-		if fi.isHeader[b] {
+		if fi.isHeader[b] && os.Getenv("PCHECK_NOUNROLL") == "" {
 			// a loop that is being unrolled on its small constant counter (range over a constant table): its iterations
 			// are separate program points already, and keep the same bounded disjunction as straight-line code
 			for _, ins := range b.Instrs {
